@@ -429,5 +429,6 @@ class HddSplit(Suite):
 
 SUITES["hdd_split"] = HddSplit()
 
-from harness.readers import under_O  # noqa: E402
+from harness.readers import under_O, under_debug  # noqa: E402
 SUITES["hds_pyO"] = under_O(SUITES["hds"])
+SUITES["hds_dbg"] = under_debug(SUITES["hds"])
